@@ -452,4 +452,97 @@ theorem parseSection_flat (al : Aliases) (ifaces : List (String × Xml)) (tyFuel
         · rw [List.foldlM_append, hf]
           simp [List.foldlM_cons, h, bind, Except.bind, pure, Except.pure]
 
+/-! ### the order of the top-level sections of a .def file -/
+
+/-- the six top-level sections `parseSection` looks at -/
+def sectionTags : List String := ["Implements", "Properties", "Volatile", "ClientMethods", "CellMethods", "BaseMethods"]
+
+/-- `parseSection` sees a section only through `find` on those six tags -/
+theorem parseSection_congr (al : Aliases) (ifaces : List (String × Xml)) (tyFuel fuel : Nat) (d : EntityDef) (sec sec' : Xml)
+    (h : ∀ t ∈ sectionTags, sec.find t = sec'.find t) :
+    parseSection al ifaces tyFuel fuel d sec = parseSection al ifaces tyFuel fuel d sec' := by
+  cases fuel with
+  | zero => rfl
+  | succ fuel =>
+    simp only [parseSection]
+    rw [h "Implements" (by simp [sectionTags]), h "Properties" (by simp [sectionTags]), h "Volatile" (by simp [sectionTags]),
+      h "ClientMethods" (by simp [sectionTags]), h "CellMethods" (by simp [sectionTags]), h "BaseMethods" (by simp [sectionTags])]
+
+theorem find_unique {α : Type} (p : α → Bool) : ∀ (l : List α) (x : α), x ∈ l → p x = true →
+    (∀ y ∈ l, p y = true → y = x) → l.find? p = some x := by
+  intro l
+  induction l with
+  | nil => intro x hx; cases hx
+  | cons a l ih =>
+    intro x hx hp hu
+    by_cases ha : p a = true
+    · have : a = x := hu a (List.mem_cons_self ..) ha
+      subst this
+      simp [List.find?, ha]
+    · have hne : a ≠ x := fun e => ha (e ▸ hp)
+      have hx' : x ∈ l := by
+        cases hx with
+        | head => exact absurd rfl hne
+        | tail _ h => exact h
+      simp only [List.find?, ha]
+      exact ih x hx' hp (fun y hy hpy => hu y (List.mem_cons_of_mem _ hy) hpy)
+
+theorem find_none_of_forall {α : Type} (p : α → Bool) (l : List α) (h : ∀ y ∈ l, p y = false) : l.find? p = none := by
+  induction l with
+  | nil => rfl
+  | cons a l ih =>
+    simp only [List.find?, h a (List.mem_cons_self ..)]
+    exact ih (fun y hy => h y (List.mem_cons_of_mem _ hy))
+
+theorem nodup_map_inj {α β : Type} (f : α → β) : ∀ (l : List α), (l.map f).Nodup → ∀ x ∈ l, ∀ y ∈ l, f x = f y → x = y := by
+  intro l
+  induction l with
+  | nil => intro _ x hx; cases hx
+  | cons a l ih =>
+    intro hnd x hx y hy hxy
+    rw [List.map_cons, List.nodup_cons] at hnd
+    obtain ⟨hna, hl⟩ := hnd
+    cases hx with
+    | head =>
+      cases hy with
+      | head => rfl
+      | tail _ hy' => exact absurd (List.mem_map.mpr ⟨y, hy', hxy.symm⟩) hna
+    | tail _ hx' =>
+      cases hy with
+      | head => exact absurd (List.mem_map.mpr ⟨x, hx', hxy⟩) hna
+      | tail _ hy' => exact ih hl x hx' y hy' hxy
+
+/-- `find` does not depend on the order of the children when every tag occurs at most once -/
+theorem find_perm (c c' : List Xml) (hperm : c.Perm c') (hnd : (c.map Xml.tag).Nodup) (t : String) :
+    c.find? (·.tag == t) = c'.find? (·.tag == t) := by
+  have hnd' : (c'.map Xml.tag).Nodup := (hperm.map Xml.tag).nodup_iff.mp hnd
+  by_cases hex : ∃ x ∈ c, x.tag = t
+  · obtain ⟨x, hx, hxt⟩ := hex
+    have uniq : ∀ (l : List Xml), (l.map Xml.tag).Nodup → x ∈ l → ∀ y ∈ l, (y.tag == t) = true → y = x := by
+      intro l hl hxl y hy hyt
+      have hyt' : y.tag = x.tag := by rw [hxt]; simpa using hyt
+      exact nodup_map_inj Xml.tag l hl y hy x hxl hyt'
+    rw [find_unique _ c x hx (by simpa using hxt) (uniq c hnd hx),
+      find_unique _ c' x (hperm.mem_iff.mp hx) (by simpa using hxt) (uniq c' hnd' (hperm.mem_iff.mp hx))]
+  · have hn : ∀ y ∈ c, (y.tag == t) = false := by
+      intro y hy
+      have : y.tag ≠ t := fun e => hex ⟨y, hy, e⟩
+      simpa using this
+    have hn' : ∀ y ∈ c', (y.tag == t) = false := fun y hy => hn y (hperm.mem_iff.mpr hy)
+    rw [find_none_of_forall _ c hn, find_none_of_forall _ c' hn']
+
+/-- **The order of the top-level sections of a `.def` file carries no meaning**: two sections
+whose children are a permutation of each other (each tag at most once) parse to the same
+definition — interfaces first, then the file's own members, whatever the document order. -/
+theorem parseSection_order_irrelevant (al : Aliases) (ifaces : List (String × Xml)) (tyFuel fuel : Nat) (d : EntityDef)
+    (tag : String) (text text' : Option String) (c c' : List Xml) (hperm : c.Perm c') (hnd : (c.map Xml.tag).Nodup) :
+    parseSection al ifaces tyFuel fuel d (.node tag text c) = parseSection al ifaces tyFuel fuel d (.node tag text' c') :=
+  parseSection_congr al ifaces tyFuel fuel d _ _ (fun t _ => find_perm c c' hperm hnd t)
+
+
+/-- non-vacuity: `<Properties>` before `<Implements>` is a permutation with distinct tags -/
+example : [Xml.node "Properties" none [], Xml.node "Implements" none []].Perm [Xml.node "Implements" none [], Xml.node "Properties" none []] ∧
+    ([Xml.node "Properties" none [], Xml.node "Implements" none []].map Xml.tag).Nodup := by
+  exact ⟨List.Perm.swap _ _ _, by decide⟩
+
 end ReplayModel.C04
